@@ -7,9 +7,12 @@ EXTENDS GatewayHost, Json
 CONSTANTS Devs,      \* open deviations (as-built alternative printed for them)
           Lite,      \* reduced block "rest": UseSubdomains on, port and wildcard host vary together
           Rich,      \* thorough tier: block "ids" also varies port and wildcard gateway host
-          Blocks     \* subset of {"ids", "rest"}:
-                     \* "ids" : every identifier x namespace x host form x relevant configuration
-                     \* "rest": representative identifiers x remainders x queries x port x wildcard host
+          Blocks     \* subset of {"ids", "rest", "forms"}:
+                     \* "ids"  : every identifier x namespace x host form x relevant configuration
+                     \* "rest" : representative identifiers x remainders x queries x port x wildcard host
+                     \* "forms": representative identifiers x EVERY branch of the handler (known gateway with /
+                     \*           without own DNSLink record x path inside / outside Paths x NoDNSLink, subdomain,
+                     \*           wildcard gateway, foreign DNSLink site) x every textual host form x X-Forwarded-Host
 
 RECURSIVE Rep(_, _)
 Rep(c, k) == IF k = 0 THEN <<>> ELSE <<c>> \o Rep(c, k - 1)
@@ -38,6 +41,10 @@ IdRecs ==
   \cup UNION {{[id |-> Dns(n), recs |-> r] : r \in SUBSET {n, Inline(n)}} : n \in Dotted}
   \cup UNION {{[id |-> Dns(n), recs |-> r] : r \in SUBSET {n, Uninline(n)}} : n \in InlinedN}
   \cup {[id |-> Dns(n), recs |-> r] : n \in Garbage, r \in {{}}}
+FormIds == {ir \in IdRecs : \/ ir.id \in {Cid(0, "pb", "b58", "s1"), Cid(1, "raw", "b32", "s1"), Cid(1, "key", "b36", "id")}
+                            \/ ir.id \in {Dns(N1), Dns(Inline(N1))} /\ ir.recs = {N1}
+                            \/ ir.id = Dns(N2)}
+FormIdsLite == {ir \in FormIds : ir.id \in {Cid(0, "pb", "b58", "s1"), Cid(1, "raw", "b32", "s1"), Dns(N1)}}
 RestIds == {ir \in IdRecs : \/ ir.id \in {Cid(0, "pb", "b58", "s1"), Cid(1, "raw", "b32", "s1"), Cid(1, "key", "b32", "id"), P58("id")}
                             \/ ir.id \in {Dns(N1), Dns(Inline(N1)), Dns(G2)} /\ ir.recs = {N1}
                             \/ ir.id = Dns(G2)}
@@ -48,40 +55,63 @@ QAll    == {"", "q=1", "a=b%20c&d=%2F"}
 VARIABLES pc, Block, cfg, req
 vars == <<pc, Block, cfg, req>>
 Cfg0 == [wild |-> FALSE, sub |-> FALSE, inl |-> FALSE, gwnodl |-> FALSE, paths |-> "both", nodl |-> FALSE]
-Req0 == [hf |-> "gw", xfh |-> FALSE, port |-> FALSE, https |-> FALSE, ns |-> "ipfs", id |-> NoId, segs |-> <<>>, q |-> "", recs |-> {}]
+Req0 == [hf |-> "gw", xfh |-> FALSE, form |-> "plain", https |-> FALSE, ns |-> "ipfs", id |-> NoId, segs |-> <<>>, q |-> "", recs |-> {},
+         gwrec |-> FALSE]
 Init == pc = 0 /\ Block \in Blocks /\ cfg = Cfg0 /\ req = Req0
 
 HostFormOK(hf, id) == CASE hf = "gw"  -> TRUE
                         [] hf = "sub" -> id.k # "dns" \/ HostSafe(id.name)
                         [] OTHER      -> id.k = "dns" /\ HasDot(id.name) /\ HostSafe(id.name)
 
+IdsOf(b) == CASE b = "ids" -> IdRecs [] b = "rest" -> RestIds [] OTHER -> IF Rich THEN FormIds ELSE FormIdsLite
 Pick1 == /\ pc = 0 /\ pc' = 1 /\ cfg' = cfg /\ Block' = Block
-         /\ \E ir \in (IF Block = "ids" THEN IdRecs ELSE RestIds), hf \in {"gw", "sub", "other"},
-               ns \in (IF Block = "ids" THEN {"ipfs", "ipns", "foo"} ELSE {"ipfs", "ipns"}) :
+         /\ \E ir \in IdsOf(Block), hf \in {"gw", "sub", "other"},
+               ns \in (IF Block = "rest" THEN {"ipfs", "ipns"} ELSE {"ipfs", "ipns", "foo"}) :
               /\ HostFormOK(hf, ir.id)
               /\ hf = "other" => ns = "ipfs"                    \* the namespace is not part of that request
+              /\ Block = "forms" /\ hf = "sub" => ns # "foo"
               /\ req' = [req EXCEPT !.hf = hf, !.ns = ns, !.id = ir.id, !.recs = ir.recs]
 Pick2 == /\ pc = 1 /\ pc' = 2 /\ Block' = Block
+         /\ Block # "forms"
          /\ \E https \in BOOLEAN, xfh \in BOOLEAN, sub \in BOOLEAN, inl \in BOOLEAN,
                paths \in (IF Block = "ids" THEN {"both", "ipfs"} ELSE {"both"}), nodl \in BOOLEAN,
                segs \in (IF Block = "ids" THEN {<<"a", "b c">>} ELSE SegsAll),
                q \in (IF Block = "ids" THEN {"q=1"} ELSE QAll),
-               port \in (IF Block = "ids" /\ ~Rich THEN {FALSE} ELSE BOOLEAN),
-               wild \in (IF Block = "ids" /\ ~Rich THEN {FALSE} ELSE BOOLEAN) :
+               form \in (IF Block = "ids" /\ ~Rich THEN {"plain"} ELSE {"plain", "port"}),
+               wild \in (IF Block = "ids" /\ ~Rich THEN {FALSE} ELSE BOOLEAN),
+               gwrec \in BOOLEAN, gwnodl \in BOOLEAN :
               \* only the configuration fields the host form can depend on are varied
               /\ req.hf = "other" => sub /\ inl /\ paths = "both" /\ ~xfh
               /\ req.hf # "other" => ~nodl
               /\ Block = "rest" => ~xfh
-              /\ Block = "rest" /\ Lite => sub /\ (port <=> wild)
-              /\ req' = [req EXCEPT !.https = https, !.xfh = xfh, !.segs = segs, !.q = q, !.port = port]
-              /\ cfg' = [cfg EXCEPT !.sub = sub, !.inl = inl, !.paths = paths, !.nodl = nodl, !.wild = wild]
-Next == Pick1 \/ Pick2
+              /\ Block = "rest" /\ Lite => sub /\ (form = "port" <=> wild)
+              \* the gateway host's own DNSLink record matters where the path is outside the gateway's Paths
+              /\ gwrec => req.hf = "gw" /\ Block = "ids" /\ ~Handled([paths |-> paths], req.ns) /\ ~inl
+              /\ gwnodl => gwrec
+              /\ req' = [req EXCEPT !.https = https, !.xfh = xfh, !.segs = segs, !.q = q, !.form = form, !.gwrec = gwrec]
+              /\ cfg' = [cfg EXCEPT !.sub = sub, !.inl = inl, !.paths = paths, !.nodl = nodl, !.wild = wild, !.gwnodl = gwnodl]
+\* block "forms": the textual host form crossed with every branch of the handler
+Pick2F == /\ pc = 1 /\ pc' = 2 /\ Block' = Block
+          /\ Block = "forms"
+          /\ \E form \in Forms, xfh \in BOOLEAN, sub \in BOOLEAN, wild \in BOOLEAN, paths \in {"both", "ipfs"},
+                gwrec \in BOOLEAN, gwnodl \in BOOLEAN, nodl \in BOOLEAN, https \in BOOLEAN :
+              /\ req.hf = "other" => sub /\ paths = "both" /\ ~wild /\ ~gwrec
+              /\ req.hf = "sub" => sub /\ ~gwrec /\ (paths = "ipfs" => req.ns = "ipns")
+              /\ req.hf = "gw" /\ paths = "ipfs" => req.ns = "ipns"        \* (/ipfs with Paths={/ipfs} = with both)
+              /\ req.hf # "other" /\ ~gwrec => ~nodl                        \* Config.NoDNSLink: foreign hosts; as built also
+              /\ gwnodl => gwrec                                            \*   GW.TEST-style hosts with a record
+              /\ nodl /\ req.hf # "other" => NonCanon(form) \/ form = "plain"
+              /\ https => Rich \/ (form \in {"port", "upper"} /\ ~xfh)
+              /\ req' = [req EXCEPT !.https = https, !.xfh = xfh, !.segs = <<"a", "b c">>, !.q = "q=1", !.form = form, !.gwrec = gwrec]
+              /\ cfg' = [cfg EXCEPT !.sub = sub, !.inl = FALSE, !.paths = paths, !.nodl = nodl, !.wild = wild, !.gwnodl = gwnodl]
+Next == Pick1 \/ Pick2 \/ Pick2F
 Spec == Init /\ [][Next]_vars
 Chosen == pc = 2
 
 \* ---- phase M and phase G in one pass: every routing of a case is computed once.
 \*  PropertyHolds    : the property holds for the ideal routing (D = {})
 \*  DiffIsAttributed : every difference of the as-built routing is attributed to a named deviation
+\*  FormIndependent  : the ideal routing does not depend on the textual form of the host
 \*  DevsDetected     : wherever a deviation matters, the as-built outcome violates the property
 \*                     (so the property invariants are not vacuous)
 Fail(what) == PrintT(<<"FAILED", what, cfg, req>>) /\ FALSE
@@ -96,8 +126,9 @@ Checks ==
       fa  == IF all = id THEN {} ELSE {d \in AllDevs : all # Full(cfg, req, AllDevs \ {d})}
       fd  == IF ab = id THEN {} ELSE IF Devs = AllDevs THEN fa ELSE {d \in Devs : ab # Full(cfg, req, Devs \ {d})}
   IN /\ PropertyOf(cfg, req, id[1], id[2]) \/ Fail("PropertyHolds")
+     /\ (req.form = "plain" \/ id = Full(cfg, PlainReq(req), {})) \/ Fail("FormIndependent")
      /\ (all # id => fa # {}) \/ Fail("DiffIsAttributed")
-     /\ (fa # {} => ~PropertyOf(cfg, req, all[1], all[2])) \/ Fail("DevsDetected")
+     /\ (fa # {} => ~PropertyOf(cfg, req, all[1], all[2]) \/ all # Full(cfg, PlainReq(req), AllDevs)) \/ Fail("DevsDetected")
      /\ PrintT(<<"BEHAVIOUR", ToJson(
            IF ab = id THEN [cfg |-> cfg, req |-> ReqJ, out |-> id[1], follow |-> id[2]]
            ELSE [cfg |-> cfg, req |-> ReqJ, out |-> id[1], follow |-> id[2],
